@@ -27,6 +27,7 @@ func init() {
 		Real:           []string{"RegisterGCAHandler/registerGCA/saveGCAKey", "loadGCAPubkey at restart", "AuthorizeEquipmentHandler, AuthorizedServersHandlerPOST, EquipmentMigrateHandler authority checks"},
 		Stub:           []string{"socket listeners; concurrency is the seeded release order of request tasks (one critical section per registration) - real parallel execution is covered by C13's race mode"},
 		RequiredProbes: []string{"c07.competition", "c07.replay-after-success", "c07.after-restart", "c07.loser-signs", "c07.pre-registration-authority"},
+		RequiredSites:  []string{"gcakey.after-write"},
 	})
 }
 
